@@ -1,10 +1,16 @@
 \* The named deviation PrefixCheckOnly is on (checkEndpointLocation judges a location by the text before its
 \* first colon, without parsing it as a URL): TLC must REFUTE RejectsHostile (the check breaks when it does not).
+\* Base cases only (every element written with the default namespace), one descriptor type (Endpoint and IndexedEndpoint elements).
 CONSTANTS
   MaxLen = 1
   Parts = {"meta"}
   Escaper = "html"
   PrefixCheckOnly = TRUE
+  ForeignNamespaceUnchecked = FALSE
+  Descs = {"SPSSODescriptor"}
+  BaseCases = TRUE
+  NsSet = {}
+  NsWide = FALSE
 INIT Init
 NEXT Next
 INVARIANTS
